@@ -500,3 +500,102 @@ class ConditionalRebind(ast.NodeTransformer):
 
 
 ALL['conditional_rebind'] = ConditionalRebind
+
+
+_PURE_HEADS = {'len', 'int', 'float', 'min', 'max', 'abs', 'round', 'tuple', 'list', 'str', 'bool', 'isinstance', 'range'}
+
+
+def _pure_expr(e):
+    """no calls other than builtins / numpy functions, no walrus / await / yield / lambda"""
+    for x in ast.walk(e):
+        if isinstance(x, (ast.NamedExpr, ast.Await, ast.Yield, ast.YieldFrom, ast.Lambda)):
+            return False
+        if isinstance(x, ast.Call):
+            f = x.func
+            if isinstance(f, ast.Name) and f.id in _PURE_HEADS:
+                continue
+            if isinstance(f, ast.Attribute) and isinstance(f.value, ast.Name) and f.value.id in ('np', 'xp', 'math'):
+                if f.attr in ('copy', 'array', 'zeros', 'empty', 'ones', 'full', 'zeros_like'):
+                    return False        # (a fresh array: inlining could change aliasing)
+                continue
+            return False
+    return True
+
+
+class InlineTemporaries(_StmtLists):
+    """t = E; <statement reading t once>   ->   <statement with E in place of t>
+    (E pure, t a plain local read nowhere else in the function, the next statement a simple one)"""
+    def __init__(self):
+        self.loads = {}
+
+    def visit_FunctionDef(self, n):
+        old = self.loads
+        self.loads = {}
+        for x in ast.walk(n):
+            if isinstance(x, ast.Name) and isinstance(x.ctx, ast.Load):
+                self.loads[x.id] = self.loads.get(x.id, 0) + 1
+        stores = {}
+        for x in ast.walk(n):
+            if isinstance(x, ast.Name) and isinstance(x.ctx, ast.Store):
+                stores[x.id] = stores.get(x.id, 0) + 1
+        self.stores = stores
+        self.generic_visit(n)
+        self.loads = old
+        return n
+
+    def rewrite(self, body, owner):
+        if isinstance(owner, (ast.ClassDef, ast.Module)):
+            return body
+        out = []
+        i = 0
+        while i < len(body):
+            st = body[i]
+            nxt = body[i + 1] if i + 1 < len(body) else None
+            if isinstance(st, ast.Assign) and len(st.targets) == 1 and isinstance(st.targets[0], ast.Name) and nxt is not None \
+                    and isinstance(nxt, (ast.Assign, ast.Return, ast.Expr, ast.AugAssign)) and _pure_expr(st.value):
+                t = st.targets[0].id
+                uses = [x for x in ast.walk(nxt) if isinstance(x, ast.Name) and x.id == t and isinstance(x.ctx, ast.Load)]
+                nested = any(isinstance(c, (ast.ListComp, ast.SetComp, ast.DictComp, ast.GeneratorExp, ast.Lambda, ast.IfExp, ast.BoolOp))
+                             and any(y is uses[0] for y in ast.walk(c)) for c in ast.walk(nxt)) if uses else True
+                reads_of_value = _names(st.value, ast.Load)
+                stored_in_next = _names(nxt, ast.Store)
+                if len(uses) == 1 and not nested and self.loads.get(t, 0) == 1 and getattr(self, 'stores', {}).get(t, 0) == 1 and \
+                        not (reads_of_value & stored_in_next) and t not in stored_in_next:
+                    class Sub(ast.NodeTransformer):
+                        def visit_Name(s_, x):
+                            return copy.deepcopy(st.value) if (x.id == t and isinstance(x.ctx, ast.Load)) else x
+                    out.append(Sub().visit(nxt))
+                    i += 2
+                    continue
+            out.append(st)
+            i += 1
+        return out
+
+
+class AppendLoopToComprehension(_StmtLists):
+    """L = []; for x in it: L.append(e)   ->   L = [e for x in it]"""
+    def rewrite(self, body, owner):
+        out = []
+        i = 0
+        while i < len(body):
+            st = body[i]
+            nxt = body[i + 1] if i + 1 < len(body) else None
+            if isinstance(st, ast.Assign) and len(st.targets) == 1 and isinstance(st.targets[0], ast.Name) and \
+                    isinstance(st.value, ast.List) and not st.value.elts and isinstance(nxt, ast.For) and not nxt.orelse and \
+                    len(nxt.body) == 1 and isinstance(nxt.body[0], ast.Expr) and isinstance(nxt.body[0].value, ast.Call):
+                c = nxt.body[0].value
+                L = st.targets[0].id
+                if isinstance(c.func, ast.Attribute) and c.func.attr == 'append' and isinstance(c.func.value, ast.Name) and \
+                        c.func.value.id == L and len(c.args) == 1 and not c.keywords and L not in _names(c.args[0], ast.Load) and \
+                        L not in _names(nxt.iter, ast.Load):
+                    out.append(ast.Assign([ast.Name(L, ast.Store())],
+                                          ast.ListComp(c.args[0], [ast.comprehension(nxt.target, nxt.iter, [], 0)])))
+                    i += 2
+                    continue
+            out.append(st)
+            i += 1
+        return out
+
+
+ALL['inline_temporaries'] = InlineTemporaries
+ALL['append_loop_to_comprehension'] = AppendLoopToComprehension
